@@ -128,6 +128,11 @@ def main():
     o = run('t_try_for_each', ['v', 'lim']); oks = [x for x in o if x[0] == 'ok']; errs = [x for x in o if x[0] == 'err']
     check('t_try_for_each', sorted(P(x[3]) for x in oks)[:3] == ['Ok(0)', 'Ok(1)', 'Ok(2)'] or len(oks) == 3, 'try_for_each: 0, 1, 2 completed iterations end Ok(n); got %s' % [x[2] for x in oks])
     check('t_try_for_each', len(errs) >= 1, 'try_for_each: an element above the limit breaks out with Err; got %s' % [x[2] for x in errs])
+    o = run('t_transpose', ['x', 'lim']); oks = [x for x in o if x[0] == 'ok']; errs = [x for x in o if x[0] == 'err']
+    check('t_transpose', len(oks) == 2 and len(errs) == 1, 'transpose: None -> Ok(None); Some(v<=lim) -> Ok(Some(v+1)); Some(v>lim) -> Err: got %d ok / %d err' % (len(oks), len(errs)))
+    check('t_transpose', any('sym(x) is None' in x[1] and x[2] == 'Result::Ok{0: Option::None}' for x in oks) or any('sym(x) is None' in ' '.join(x[1]) for x in oks), 'the None case is a fact on x itself; got %s' % [(x[1], x[2]) for x in oks])
+    o = run('t_cloned', ['h']); rets = [x for x in o if x[0] == 'ret']
+    check('t_cloned', len(rets) == 2, 'cloned keeps the Some/None split on h.slot; got %s' % [(x[1], x[2]) for x in rets])
     # engine: equalities implied by order facts (total order): b<a false, m==a, m<b false ==> a==b
     import engine as _e
     class _PV(_e.PathView):
